@@ -299,8 +299,13 @@ pub fn gen(rng: &mut Rng, n: usize, sink: &mut Sink, focus: &str) {
                         let sym = rng.pick(&[b"mtk".to_vec(), b"x".to_vec(), b"T-1".to_vec(), vec![], b"long-symbol-name".to_vec()]).clone();
                         let egld = *rng.pick(&[0u64, 50000000000000000, 50000000000000000, 50000000000000000, 1]);
                         // callers: the service, a current minter (MINTER bit 1), or anyone
-                        let caller_service = match rng.below(3) {
+                        let caller_service = match rng.below(5) {
                             0 => holder(rng, &roles, 1),
+                            // an operator / flow limiter that is neither the service nor a minter
+                            1 => {
+                                let bit = *rng.pick(&[2u8, 2, 4]);
+                                holder(rng, &roles, bit)
+                            }
                             _ => caller_service.clone(),
                         };
                         // once the token is recorded: a well-formed second deployment by a minter naming a new minter
@@ -334,7 +339,7 @@ pub fn gen(rng: &mut Rng, n: usize, sink: &mut Sink, focus: &str) {
                                 let line = if rng.chance(3, 4) {
                                     format!("deliver {} ok {}", id, hex::encode(newtok.as_bytes()))
                                 } else {
-                                    format!("deliver {} fail", id)
+                                    format!("deliver {} fail {}", id, crate::enc::fail_code(rng))
                                 };
                                 let out = sink.exec(&line);
                                 pending_issue = Some((id, true));
